@@ -7,6 +7,7 @@ mechanically from the .pyx files (contracts/_criteria.py): node value = weighted
 constant fit, children impurities, weights, improvement and its proxy.  'mselin' (LAPACK) stays bounded."""
 import z3
 from pyvc.api import Contract, contract
+from contracts._frames import query_frame
 from pyvc.values import Obj, NdArr, Opaque, z
 from pyvc import models
 from pyvc.npmodel import getitem as np_getitem
@@ -53,6 +54,7 @@ def _tree_state(s):
 
 
 @contract(F + "::PiecewiseTreeRegressor.predict_leaves", "C09")
+@query_frame("self")
 class PredictLeaves(Contract):
     """PROVED (sparse decision_path, column selection, argmax): the position in leaves_index_ of the leaf each row falls into"""
 
@@ -100,6 +102,7 @@ def _fitted(E, crit="mselin"):
 
 
 @contract(F + "::PiecewiseTreeRegressor._predict_reglin", "C09")
+@query_frame("self")
 class PredictReglin(Contract):
     variants = ["real", "int"]         # dtype of the batch: integer features are evaluated like the same real numbers
 
@@ -155,6 +158,7 @@ class PredictReglin(Contract):
 
 
 @contract(F + "::PiecewiseTreeRegressor.predict", "C09")
+@query_frame("self")
 class Predict(Contract):
     variants = ["mselin", "simple", "squared_error"]
 
